@@ -78,14 +78,9 @@ pub fn multitask_elasticnet_spec() -> BuilderSpec {
 
 fn enet<F: Float>(case: &Case, spec: &BuilderSpec, out: &mut Outcome) {
     let ds = Dataset::new(xmat::<F>(), yvec::<F>());
-    let make = || {
-        ElasticNetParams::<F>::new()
-            .penalty(F::cast(case.f("penalty")))
-            .l1_ratio(F::cast(case.f("l1_ratio")))
-            .tolerance(F::cast(case.f("tolerance")))
-            .max_iterations(case.u("max_iterations") as u32)
-            .with_intercept(case.b("with_intercept"))
-    };
+    let base = || ElasticNetParams::<F>::new();
+    let set = setter(&base, |mut p, c| { if c.moved(&["penalty"]) { p = p.penalty(F::cast(c.f("penalty"))); } if c.moved(&["l1_ratio"]) { p = p.l1_ratio(F::cast(c.f("l1_ratio"))); } if c.moved(&["tolerance"]) { p = p.tolerance(F::cast(c.f("tolerance"))); } if c.moved(&["max_iterations"]) { p = p.max_iterations(c.u("max_iterations") as u32); } if c.moved(&["with_intercept"]) { p = p.with_intercept(c.b("with_intercept")); } p });
+    let make = || set(base(), case);
     let ops = vec![op(
         &make,
         "fit",
@@ -93,20 +88,15 @@ fn enet<F: Float>(case: &Case, spec: &BuilderSpec, out: &mut Outcome) {
         |p| p.fit(&ds).map(|m| dbg(&m)).map_err(|e: ElasticNetError| dbg(&e)),
         |e| dbg(&e),
     )];
-    judge(case, spec, &make, &|p| dbg(p), &|c| dbg(c), ops, out);
+    judge(case, spec, &base, &set, Some(&|p| p.clone()), &|p| dbg(p), &|c| dbg(c), ops, out);
 }
 
 fn mtenet<F: Float>(case: &Case, spec: &BuilderSpec, out: &mut Outcome) {
     let y2 = Array2::from_shape_fn((8, 2), |(i, j)| if j == 0 { F::cast(Y[i]) } else { F::cast(10.0 - Y[i] * 0.5) });
     let ds = Dataset::new(xmat::<F>(), y2);
-    let make = || {
-        MultiTaskElasticNetParams::<F>::new()
-            .penalty(F::cast(case.f("penalty")))
-            .l1_ratio(F::cast(case.f("l1_ratio")))
-            .tolerance(F::cast(case.f("tolerance")))
-            .max_iterations(case.u("max_iterations") as u32)
-            .with_intercept(case.b("with_intercept"))
-    };
+    let base = || MultiTaskElasticNetParams::<F>::new();
+    let set = setter(&base, |mut p, c| { if c.moved(&["penalty"]) { p = p.penalty(F::cast(c.f("penalty"))); } if c.moved(&["l1_ratio"]) { p = p.l1_ratio(F::cast(c.f("l1_ratio"))); } if c.moved(&["tolerance"]) { p = p.tolerance(F::cast(c.f("tolerance"))); } if c.moved(&["max_iterations"]) { p = p.max_iterations(c.u("max_iterations") as u32); } if c.moved(&["with_intercept"]) { p = p.with_intercept(c.b("with_intercept")); } p });
+    let make = || set(base(), case);
     let ops = vec![op(
         &make,
         "fit",
@@ -114,7 +104,7 @@ fn mtenet<F: Float>(case: &Case, spec: &BuilderSpec, out: &mut Outcome) {
         |p| p.fit(&ds).map(|m| dbg(&m)).map_err(|e: ElasticNetError| dbg(&e)),
         |e| dbg(&e),
     )];
-    judge(case, spec, &make, &|p| dbg(p), &|c| dbg(c), ops, out);
+    judge(case, spec, &base, &set, Some(&|p| p.clone()), &|p| dbg(p), &|c| dbg(c), ops, out);
 }
 
 // ------------------------------------------------------------------------------------------
@@ -168,13 +158,9 @@ macro_rules! logistic_impl {
         fn $name(case: &Case, spec: &BuilderSpec, out: &mut Outcome) {
             let labels: [usize; 8] = $labels;
             let ds = Dataset::new(xmat::<$f>(), Array1::from_shape_fn(8, |i| labels[i]));
-            let make = || {
-                $builder::<$f>::default()
-                    .alpha(case.f("alpha") as $f)
-                    .gradient_tolerance(case.f("gradient_tolerance") as $f)
-                    .max_iterations(case.u("max_iterations"))
-                    .with_intercept(case.b("with_intercept"))
-            };
+            let base = || $builder::<$f>::default();
+            let set = setter(&base, |mut p, c| { if c.moved(&["alpha"]) { p = p.alpha(c.f("alpha") as $f); } if c.moved(&["gradient_tolerance"]) { p = p.gradient_tolerance(c.f("gradient_tolerance") as $f); } if c.moved(&["max_iterations"]) { p = p.max_iterations(c.u("max_iterations")); } if c.moved(&["with_intercept"]) { p = p.with_intercept(c.b("with_intercept")); } p });
+            let make = || set(base(), case);
             let ops = vec![op(
                 &make,
                 "fit",
@@ -182,7 +168,7 @@ macro_rules! logistic_impl {
                 |p| p.fit(&ds).map(|m| dbg(&m)).map_err(|e: linfa_logistic::error::Error| dbg(&e)),
                 |e| dbg(&e),
             )];
-            judge(case, spec, &make, &|p| dbg(p), &|c| dbg(c), ops, out);
+            judge(case, spec, &base, &set, Some(&|p| p.clone()), &|p| dbg(p), &|c| dbg(c), ops, out);
         }
     };
 }
@@ -243,14 +229,9 @@ macro_rules! tweedie_impl {
             // features scaled to [0, 0.7]: with the log link and no intercept the L-BFGS line search of the
             // GLM does not terminate on larger features (a training problem outside this property)
             let ds = Dataset::new(xmat::<$f>().mapv(|v| v * 0.1), yvec::<$f>());
-            let make = || {
-                TweedieRegressor::<$f>::params()
-                    .alpha(case.f("alpha") as $f)
-                    .power(case.f("power") as $f)
-                    .max_iter(case.u("max_iter") as usize)
-                    .tol(case.f("tol") as $f)
-                    .fit_intercept(case.b("fit_intercept"))
-            };
+            let base = || TweedieRegressor::<$f>::params();
+            let set = setter(&base, |mut p, c| { if c.moved(&["alpha"]) { p = p.alpha(c.f("alpha") as $f); } if c.moved(&["power"]) { p = p.power(c.f("power") as $f); } if c.moved(&["max_iter"]) { p = p.max_iter(c.u("max_iter") as usize); } if c.moved(&["tol"]) { p = p.tol(c.f("tol") as $f); } if c.moved(&["fit_intercept"]) { p = p.fit_intercept(c.b("fit_intercept")); } p });
+            let make = || set(base(), case);
             let ops = vec![op(
                 &make,
                 "fit",
@@ -258,7 +239,7 @@ macro_rules! tweedie_impl {
                 |p| p.fit(&ds).map(|m| dbg(&m)).map_err(|e: LinearError<$f>| dbg(&e)),
                 |e| dbg(&e),
             )];
-            judge(case, spec, &make, &|p| dbg(p), &|c| dbg(c), ops, out);
+            judge(case, spec, &base, &set, Some(&|p| p.clone()), &|p| dbg(p), &|c| dbg(c), ops, out);
         }
     };
 }
